@@ -55,4 +55,5 @@ pub mod verif_api {
 #[cfg(feature = "verif-hooks")]
 pub mod verif_codec {
     pub use super::rrdp::verif_codec::{RepositoryState, RrdpObjectMeta};
+    pub use super::rrdp::verif_codec::AccessError;
 }
